@@ -421,6 +421,19 @@ class Report:
     def proof_stage(self, timeout=1500):
         p = prop_check(self.cid, timeout=timeout)
         self.proof = p
+        if p['ok'] and self.tier == 'thorough':
+            # independent re-check of the compiled property file and everything it depends on
+            with BuildLock():
+                rc, o, e = sh(f'timeout 1500 coqchk -silent -o -Q . Pi2 Pi2.Props.{self.cid}', cwd=COQ, timeout=1530)
+            txt = o + e
+            p['coqchk'] = txt[-1500:]
+            m = re.search(r'\* Axioms:(.*?)\n\s*\n\* Constants', txt, re.S)
+            p['coqchk_axioms'] = [l.strip() for l in (m.group(1).split('\n') if m else []) if l.strip()]
+            bad = rc != 0 or any(k in txt for k in ('relying on type-in-type: <none>',)) is False
+            if rc != 0 or 'type-in-type: <none>' not in txt or 'unsafe (co)fixpoints: <none>' not in txt \
+                    or 'positivity is assumed: <none>' not in txt:
+                p['ok'] = False
+                p['log'] = 'coqchk failed or reports assumed checks:\n' + txt[-3000:]
         return p
 
     # ---- violations
@@ -446,6 +459,8 @@ class Report:
             cov['property_theorems'] = self.proof['theorems']
             cov['coq_files'] = self.proof['files']
             cov['print_assumptions_axioms'] = self.proof['assumptions']
+            if 'coqchk_axioms' in self.proof:
+                cov['coqchk_axioms'] = self.proof['coqchk_axioms']
         cov['checker_cmd'] = checker_cmd or (f'cd {COQ} && coq_makefile -f _CoqProject -o Makefile && make -j{NCPU} Props/{self.cid}.vo '
                                              f'&& coqc -Q . Pi2 Props/{self.cid}.v  (Coq 8.16.1, full .vo build)')
         cov['trusted_base'] = trusted_base or []
